@@ -1,6 +1,7 @@
 import PyTrie.Lemmas.RawRefines
 import PyTrie.Lemmas.BinRawRefines
 import PyTrie.Lemmas.ReadRefines
+import PyTrie.Lemmas.IterRefines
 /-! # The raw-level write path refines the effect layer (tightens the tie for C01, C02, C04, C05, C06, C07)
 
 `Model/HexRaw.lean` transcribes `_set`, `_set_kv_node`, `_set_branch_node`, `_delete`, `_delete_kv_node`,
@@ -71,5 +72,25 @@ theorem annotate_refines (H : Bytes → Bytes) (hlen : ∀ b, (H b).length = 32)
 theorem get_proof_refines (H : Bytes → Bytes) (hlen : ∀ b, (H b).length = 32) (t : Node) (hc : Canon t) (db : Db)
     (hst : StoredD H db t) (k : Path) (fuel : Nat) (hf : k.length + 1 < fuel) :
     getProofD H db fuel (toItem H t) k = .ok ((getProof t k).map (toItem H)) := getProofD_refines H hlen t hc db hst k fuel hf
+
+end PyTrie.Props.Raw
+
+/-! ## `NodeIterator` at raw level -/
+namespace PyTrie.Props.Raw
+open PyTrie PyTrie.Hex PyTrie.HexD PyTrie.HexRaw
+
+/-- raw-level `NodeIterator._get_next_key` (leftmost key under an annotated node, through `traverse_from` over the
+    database) = the tree-level `nextKey` -/
+theorem next_key_refines (H : Bytes → Bytes) (hlen : ∀ b, (H b).length = 32) (t : Node) (hc : Canon t) (db : Db) (hst : StoredD H db t)
+    (tr : Path) (tfuel fuel : Nat) (htf : 64 ≤ tfuel) (hf : YP.height t + 1 ≤ fuel) :
+    nextKeyD H db tfuel fuel (Ann.toD H (annotate t)) tr = .ok (nextKey t tr) :=
+  nextKeyD_refines H hlen t hc db hst tr tfuel fuel htf hf
+
+/-- raw-level `NodeIterator._get_key_after` = the tree-level `keyAfter` (whose result is proved to be the successor
+    key in `C10.next_is_successor`) -/
+theorem key_after_refines (H : Bytes → Bytes) (hlen : ∀ b, (H b).length = 32) (t : Node) (hc : Canon t) (db : Db) (hst : StoredD H db t)
+    (key tr : Path) (tfuel fuel : Nat) (htf : 64 ≤ tfuel) (hf : 20 * (YP.height t + 1) ≤ fuel) :
+    keyAfterD H db tfuel fuel (Ann.toD H (annotate t)) key tr = .ok (keyAfter t key tr) :=
+  keyAfterD_refines H hlen t hc db hst key tr tfuel fuel htf hf
 
 end PyTrie.Props.Raw
